@@ -80,14 +80,14 @@ pub fn spec_for(id: &str) -> Option<Spec> {
             id: "C02",
             profile: base("election", W_ELECTION),
             monitors: P02,
-            options: 0,
+            options: crate::world::EXCLUDE_F11,
             rule: "non-trivial = >=2 distinct (term, leader) pairs AND (a voter crashed with an un-fsynced term/vote, or vote traffic was duplicated / delivered to a later incarnation, or a config change was applied)",
             nontrivial: |_s, f| has(f, F_TWO_LEADERS) && has(f, F_VOTE_UNSYNCED_CRASH | F_VOTE_DUP_OR_LATE | F_CONF_APPLIED),
             quick_cases: 60000,
             thorough_cases: 3_000_000,
             ops_quick: (60, 260),
             ops_thorough: (60, 500),
-            repro_options: None,
+            repro_options: Some(crate::world::NO_F11_EXCLUSION),
         },
         "C03" => Spec {
             id: "C03",
@@ -228,7 +228,7 @@ pub fn spec_for(id: &str) -> Option<Spec> {
                 id: "C15",
                 profile: p,
                 monitors: P15 | P01 | P02 | P05,
-                options: 0,
+                options: crate::world::EXCLUDE_F11,
                 rule: "non-trivial = a snapshot was installed, ignored as stale or fast-forwarded in a case that also has a later append to that follower",
                 nontrivial: |_s, f| has(f, F_SNAP_THEN_APPEND) || (has(f, F_SNAP_IGNORED_OR_FF) && has(f, F_SNAP_INSTALLED)),
                 quick_cases: 60000,
